@@ -263,3 +263,43 @@ def on_every_path(t, pred):
     if t[0] == 'phi':
         return all(on_every_path(k, pred) for k in kids)
     return any(on_every_path(k, pred) for k in kids)
+
+
+def option_or_default(term, field, default):
+    """is term `self.<field>.unwrap_or(default)` in one of its spellings (unwrap_or call, or a match: phi of the Some payload and the constant)?"""
+    t = strip_refs(term)
+    if is_call(t, name='unwrap_or'):
+        return mentions_field(t[2][0], field) and const_val(t[2][1]) == default
+    if t and t[0] == 'phi':
+        alts = [strip_refs(x) for x in t[1]]
+        has_some = any(term_contains(a, lambda x: x and x[0] == 'variant' and x[2] == 'Some') and mentions_field(a, field) for a in alts)
+        has_def = any(const_val(a) == default for a in alts)
+        return has_some and has_def and len(alts) == 2
+    return False
+
+
+def limit_test(body, s, is_len, is_limit=None):
+    """classify the switch at block s as a test `len <= limit`: returns dict(accept=[targets], reject=[targets], exact=bool, len=term, limit=term) or None.
+    exact: a length equal to the limit is accepted and one above is rejected."""
+    t = body.term(s)
+    if t['k'] != 'switch':
+        return None
+    o = mirlib.norm_cmp(body.origin(t['on']))
+    neg = False
+    while o and o[0] == 'un' and o[1] == 'Not':
+        o = mirlib.norm_cmp(o[2]); neg = not neg
+    if not (o and o[0] == 'bin' and o[1] in ('Gt', 'Ge')):
+        return None
+    a, b_ = o[2], o[3]
+    edges = body.switch_edges(s)
+    true_t = [tg for tg, vals in edges.items() if vals == ['else'] or (0 not in vals and 'else' not in vals)]
+    false_t = [tg for tg, vals in edges.items() if vals == [0]]
+    if neg:
+        true_t, false_t = false_t, true_t
+    if is_len(a) and not is_len(b_):
+        # len > limit (exact) | len >= limit (rejects len == limit)
+        return dict(accept=false_t, reject=true_t, exact=(o[1] == 'Gt'), len=a, limit=b_, op=o[1])
+    if is_len(b_) and not is_len(a):
+        # limit >= len (exact) | limit > len (rejects len == limit)
+        return dict(accept=true_t, reject=false_t, exact=(o[1] == 'Ge'), len=b_, limit=a, op=o[1] + '-swapped')
+    return None
